@@ -88,7 +88,7 @@ class InverseSqrt2exp:
       ("C19", "implies(k < 3, (result is None) == forall(c, 0, pow2(k), (c * c * n) % pow2(k) != 1))"),
   ]
   loops = {
-      0: dict(invariant=["forall(c, 0, a, (c * c * n) % pow2(k) != 1)"]),
+      0: dict(unroll=True),     # k < 3: the range 2**k has at most 4 elements -> case split on its size, then unrolled
       1: dict(
           invariant=["t >= 3", "t <= k or t == 3", "(a * a * n) % pow2(t) == 1"],
           variant="k - t",
